@@ -263,7 +263,7 @@ def salt_values(fmt, ax, tier, seed, bud):
         return [None, None], [], []
     t = sa["type"]
     cap = 16 if tier == "quick" else 64
-    stride = {"cheap": 1, "medium": 1, "slow": 8, "wrapper": 16, "token": 32}[bud]
+    stride = {"cheap": 1, "medium": 1, "slow": 8 if tier == "quick" else 2, "wrapper": 16, "token": 32}[bud]
     if t == "int":
         vals = list(range(sa["min"], sa["max"] + 1))
         return [vals[(7 + seed) % len(vals)], vals[0]], [], vals
@@ -487,7 +487,7 @@ def gen_cases(fmt, backend, tier, seed):
                         add("A", pw(c, n), c, settings_dict(s, r), ctx0, nearmiss=(c == c0 and r == rs[0]), n=n)
     elif bud in ("slow", "wrapper"):
         for n in lengths:
-            for c in (c0, c2):
+            for c in (contents if bud == "slow" and not quick else (c0, c2)):
                 for r in (costs_a[:1] if bud == "slow" else costs_a):
                     add("A", pw(c, n), c, settings_dict(base_salts[0], r), ctx0, nearmiss=(c == c0 and n in (0, 8, 72, 73)), n=n)
     else:  # token
@@ -533,7 +533,7 @@ def gen_cases(fmt, backend, tier, seed):
     # ---- E: byte / code-point grid over the significant prefix
     sig = ax.get("sig") or 16
     glen = min(sig, 16, ax["maxlen"] if ax["maxlen"] is not None else 99)
-    step = {"cheap": 1, "medium": 1, "slow": 16, "wrapper": 32, "token": 128}[bud]
+    step = {"cheap": 1, "medium": 1, "slow": 16 if quick else 4, "wrapper": 32, "token": 128}[bud]
     if fmt in DES_REF and quick:
         step = 4
     st_e = settings_dict(base_salts[0], costs_a[0])
@@ -832,13 +832,23 @@ def est_ms(fmt, backend, case):
     return ms + 0.15
 
 
+_CASES = {}  # filled by plan() in the parent; the fork pool's workers inherit it
+
+
+def cases_of(fmt, backend, tier, seed):
+    key = (fmt, backend, tier, seed)
+    if key not in _CASES:
+        _CASES[key] = gen_cases(fmt, backend, tier, seed)
+    return _CASES[key]
+
+
 def plan(tier, seed):
     """-> list of shard tasks {fmt, backend, tier, seed, index, of}"""
     tasks = []
     target = 1500.0 if tier == "quick" else 6000.0  # ms of estimated work per shard
     for fmt in all_formats():
         for backend in backends_of(fmt):
-            cases = gen_cases(fmt, backend, tier, seed)
+            cases = cases_of(fmt, backend, tier, seed)
             if not cases:
                 raise HarnessError(f"{fmt}/{backend}: empty case list")
             total = sum(est_ms(fmt, backend, c) for c in cases)
@@ -852,7 +862,7 @@ def plan(tier, seed):
 def work(task):
     acc = Acc()
     fmt, backend = task["fmt"], task["backend"]
-    cases = gen_cases(fmt, backend, task["tier"], task["seed"])
+    cases = cases_of(fmt, backend, task["tier"], task["seed"])
     mine = cases[task["index"] :: task["of"]]
     ax = axes_of(fmt)
     for case in mine:
